@@ -58,6 +58,20 @@ theorem settledListedReadable_false : ¬ SettledListedReadable := by
   rw [w.2.2.2.1] at this
   exact absurd this (by decide)
 
+/-- non-vacuity: three keys at capacity 2 with an overwrite (key 1), an eviction (key 3 is the farthest
+when key 2 arrives) and a removal (key 2), under a schedule that completes the tasks of different keys
+out of spawn order; settled at the end: key 1 reads back its latest value, keys 2 and 3 are gone. -/
+example :
+    let cfg := Cfg.shipped 2 1
+    let s := run cfg (fun k => k)
+      [.put 1 3 .chunk, .put 3 9 .chunk, .run 2, .run 0, .run 1, .deliver 2, .deliver 1,   -- 1 and 3 stored
+       .put 1 6 .chunk, .put 2 12 .chunk,                                                   -- overwrite 1; 2 evicts 3
+       .run 5, .run 3, .run 4, .deliver 5, .deliver 3,
+       .remove 2, .run 6]
+    s.tasks = [] ∧ s.notes = [] ∧ get cfg s 1 = some (.whole 6) ∧ get cfg s 2 = none ∧ get cfg s 3 = none ∧
+      s.index = [(1, .chunk)] ∧ keys s.disk = [1] := by
+  decide
+
 #print axioms SafeNet.Props.C01.get_sound
 #print axioms SafeNet.Props.C01.get_sound_shipped
 #print axioms SafeNet.Props.C01.dangling_index_witness
